@@ -205,3 +205,12 @@ theories/FileIO/FileSpecProofs.vos theories/FileIO/FileSpecProofs.vok theories/F
 theories/Properties_C09.vo theories/Properties_C09.glob theories/Properties_C09.v.beautified theories/Properties_C09.required_vo: theories/Properties_C09.v theories/FileIO/Chunks.vo theories/FileIO/ChunksProofs.vo theories/FileIO/FileSpec.vo theories/FileIO/FileSpecProofs.vo
 theories/Properties_C09.vio: theories/Properties_C09.v theories/FileIO/Chunks.vio theories/FileIO/ChunksProofs.vio theories/FileIO/FileSpec.vio theories/FileIO/FileSpecProofs.vio
 theories/Properties_C09.vos theories/Properties_C09.vok theories/Properties_C09.required_vos: theories/Properties_C09.v theories/FileIO/Chunks.vos theories/FileIO/ChunksProofs.vos theories/FileIO/FileSpec.vos theories/FileIO/FileSpecProofs.vos
+theories/Parsers/DirWalk.vo theories/Parsers/DirWalk.glob theories/Parsers/DirWalk.v.beautified theories/Parsers/DirWalk.required_vo: theories/Parsers/DirWalk.v 
+theories/Parsers/DirWalk.vio: theories/Parsers/DirWalk.v 
+theories/Parsers/DirWalk.vos theories/Parsers/DirWalk.vok theories/Parsers/DirWalk.required_vos: theories/Parsers/DirWalk.v 
+theories/Parsers/DirWalkProofs.vo theories/Parsers/DirWalkProofs.glob theories/Parsers/DirWalkProofs.v.beautified theories/Parsers/DirWalkProofs.required_vo: theories/Parsers/DirWalkProofs.v theories/Parsers/DirWalk.vo
+theories/Parsers/DirWalkProofs.vio: theories/Parsers/DirWalkProofs.v theories/Parsers/DirWalk.vio
+theories/Parsers/DirWalkProofs.vos theories/Parsers/DirWalkProofs.vok theories/Parsers/DirWalkProofs.required_vos: theories/Parsers/DirWalkProofs.v theories/Parsers/DirWalk.vos
+theories/Properties_C06.vo theories/Properties_C06.glob theories/Properties_C06.v.beautified theories/Properties_C06.required_vo: theories/Properties_C06.v theories/Parsers/DirWalk.vo theories/Parsers/DirWalkProofs.vo
+theories/Properties_C06.vio: theories/Properties_C06.v theories/Parsers/DirWalk.vio theories/Parsers/DirWalkProofs.vio
+theories/Properties_C06.vos theories/Properties_C06.vok theories/Properties_C06.required_vos: theories/Properties_C06.v theories/Parsers/DirWalk.vos theories/Parsers/DirWalkProofs.vos
